@@ -659,6 +659,7 @@ type c18Dialer struct {
 	origCur  *certConfig
 	origSer  [][]byte
 	prev2Raw []byte
+	cfg      int64 // how the dialing transport was built: 0 default, 1 WithTLSClientConfig, 2 ... with a user VerifyPeerCertificate
 }
 
 func (d *c18Dialer) dialOnce(addr ma.Multiaddr) int64 {
@@ -731,6 +732,9 @@ func (d *c18Dialer) run(chain []c18Cert, ser [][]byte, useSer bool, hashes []mul
 	outcome := d.dialOnce(addr)
 
 	line := []int64{3, int64(len(served.Certificate))}
+	if d.cfg != 0 {
+		line = []int64{6, d.cfg, int64(len(served.Certificate))}
+	}
 	for _, raw := range served.Certificate {
 		line = append(line, c18Describe(ids, c18Cert{raw: raw}, now)...)
 	}
@@ -835,6 +839,30 @@ func c18Dials(t *testing.T, out *verifh.Out, r *verifh.Rand, sg *c18Signers, n i
 		m.mx.Unlock()
 	}()
 
+	// dialers built with WithTLSClientConfig
+	var cfgDialers []*c18Dialer
+	for cfg := int64(1); cfg <= 2; cfg++ {
+		conf := &tls.Config{MinVersion: tls.VersionTLS13, SessionTicketsDisabled: true, ServerName: "c18.example"}
+		if cfg == 2 {
+			conf.VerifyPeerCertificate = func([][]byte, [][]*x509.Certificate) error { return nil }
+			conf.VerifyConnection = func(tls.ConnectionState) error { return nil }
+		}
+		k, _, _ := ic.GenerateEd25519Key(c18RandReader{r})
+		cmx, err := quicreuse.NewConnManager(quic.StatelessResetKey{}, quic.TokenGeneratorKey{})
+		if err != nil {
+			t.Fatal(err)
+		}
+		defer cmx.Close()
+		tx, err := New(k, nil, cmx, nil, &network.NullResourceManager{}, WithTLSClientConfig(conf))
+		if err != nil {
+			t.Fatal(err)
+		}
+		defer tx.(*transport).Close()
+		dc := *d
+		dc.cli, dc.cfg = tx.(*transport), cfg
+		cfgDialers = append(cfgDialers, &dc)
+	}
+
 	hLast := multihash.DecodedMultihash{Code: multihash.SHA2_256, Length: 32, Digest: last.sha256[:]}
 	hCur := multihash.DecodedMultihash{Code: multihash.SHA2_256, Length: 32, Digest: cur.sha256[:]}
 	hNext := multihash.DecodedMultihash{Code: multihash.SHA2_256, Length: 32, Digest: next.sha256[:]}
@@ -915,6 +943,21 @@ func c18Dials(t *testing.T, out *verifh.Out, r *verifh.Rand, sg *c18Signers, n i
 		d.run([]c18Cert{c}, ser, true, []multihash.DecodedMultihash{hCur})
 		d.run([]c18Cert{c}, origSer, true, []multihash.DecodedMultihash{pin})
 		out.Cover("dial.server_presents." + v.name)
+		// the same servers, dialed by transports built with WithTLSClientConfig (with and without a user
+		// VerifyPeerCertificate that accepts everything): the pin and the validity rules must still decide
+		for _, dc := range cfgDialers {
+			dc.run([]c18Cert{c}, ser, true, []multihash.DecodedMultihash{pin})                                  // pinned and confirmed: only the validity rules stand in the way
+			dc.run([]c18Cert{c}, origSer, true, []multihash.DecodedMultihash{hCur})                             // wrong hash: the address pins the listener's own certificate
+			dc.run([]c18Cert{c}, append(append([][]byte{}, origSer...), enc(pin)), true, []multihash.DecodedMultihash{hCur, hBogus}) // wrong hash, second variant
+			out.Cover(fmt.Sprintf("dial.cfg%d.server_presents.%s", dc.cfg, v.name))
+		}
+	}
+	for _, dc := range cfgDialers {
+		dc.run(nil, nil, false, []multihash.DecodedMultihash{hCur})
+		dc.run(nil, nil, false, []multihash.DecodedMultihash{hCur, hNext})
+		dc.run(nil, nil, false, []multihash.DecodedMultihash{hBogus})
+		dc.run(nil, nil, false, []multihash.DecodedMultihash{hCur, hBogus})
+		dc.run(nil, nil, false, []multihash.DecodedMultihash{hCur512})
 	}
 	// chain of two (outside the stated quantifier): the pinned certificate is not the one TLS authenticates
 	{
